@@ -21,7 +21,7 @@ def op(o, kind, i, **kw):
 def ev(t, **kw):
     d = {"t": t, "peer": "", "seq": 0, "node": "", "cp": "", "seid": "", "sref": 0, "rref": 0, "ops": [], "faults": [], "faults2": [],
          "reports": [], "tt": "", "tpeer": "", "tseq": 0, "raw": "", "maxrt": 0, "txseq0": "", "tag": "",
-         "mbase": "", "mut": {"op": "", "k": 0, "v": 0, "s": ""}}
+         "mbase": "", "mut": {"op": "", "k": 0, "v": 0, "s": ""}, "lax": False}
     d.update(kw)
     return d
 
@@ -153,6 +153,22 @@ class Gen:
         ops = self.uniq_bar([self.rnd_op(s, no_loose=no_loose, maxid=maxid) for _ in range(r.randint(0, maxops))])
         return self.emit(ev("mod", peer=peer, seq=self.nseq(peer), sref=s["ord"], ops=ops, faults=self.faults(pfault), faults2=self.faults2(pfault)))
 
+    def detach_ev(self):
+        """one request that removes a URR and, in the same breath, detaches it / queries it (C12: once per URR)"""
+        r = self.r
+        s = self.pick_sess(1.0)
+        if s is None or not s["alive"]:
+            return self.mod_ev()
+        u = r.choice(sorted(s["ids"]["urr"]) or [1])
+        p = r.choice(sorted(s["ids"]["pdr"]) or [1])
+        second = r.choice([op("remove", "pdr", p), op("update", "pdr", p, urrs=[u % 3 + 1], hasurrs=True), op("query", "urr", u)])
+        ops = [op("remove", "urr", u), second]
+        r.shuffle(ops)
+        s["ids"]["urr"].discard(u)
+        if second["op"] == "remove":
+            s["ids"]["pdr"].discard(p)
+        return self.emit(ev("mod", peer=s["peer"], seq=self.nseq(s["peer"]), sref=s["ord"], ops=ops))
+
     def del_ev(self, lit=0.1):
         r = self.r
         s = self.pick_sess(0.7)
@@ -244,8 +260,8 @@ class Gen:
         return self.emit(ev("mod", peer=peer, seq=self.nseq(peer), sref=s["ord"], node=new))
 
 
-def script(sid, g, maxrt=2, txseq0=""):
-    return {"id": sid, "events": [ev("init", maxrt=maxrt, txseq0=txseq0)] + g.events}
+def script(sid, g, maxrt=2, txseq0="", lax=False):
+    return {"id": sid, "events": [ev("init", maxrt=maxrt, txseq0=txseq0, lax=lax)] + g.events}
 
 
 # ------------------------------------------------------------------------------------------ families
@@ -338,7 +354,9 @@ def usage(seed, n, length=70, pfault=0.0):
             g.est_ev(bad=0, maxops=6)
         for _ in range(length):
             x = rng.random()
-            if x < 0.50:
+            if x < 0.06:
+                g.detach_ev()
+            elif x < 0.50:
                 g.mod_ev(lit=0.02, no_loose=rng.random() < 0.9, pfault=pfault)
             elif x < 0.75:
                 g.report_ev()
@@ -350,5 +368,6 @@ def usage(seed, n, length=70, pfault=0.0):
                 g.rptrsp_ev(zero=0.1, wrongpeer=0)
             else:
                 g.dup_ev()
-        out.append(script("us-%d-%d" % (seed, i), g, maxrt=1))
+        # a third of the histories run against a permissive data plane (answers queries for URRs it has removed)
+        out.append(script("us-%d-%d" % (seed, i), g, maxrt=1, lax=(i % 3 == 2)))
     return out
